@@ -33,98 +33,313 @@ ASSUMPTIONS = [
     "health checker: the real HealthChecker runs on a mio Poll against scripted loopback TCP servers (200, 503, close after accept, refuse, hang after accept, half a status line); its clock is aged by the case's `advance` through the cfg(sozu_verif) hook (started_at of the probes in flight, last_check_time), one model second = 100000 real seconds, so the per-cluster jitter on the interval (0 < jitter < interval/5) is strictly inside one model second (the driver checks this for the case's interval) and a round starts after interval+1 whole model seconds; the strict `elapsed > timeout` is `>=` on whole model seconds because real time has advanced by an instant; a backend that floods the reader (more than MAX_HEALTH_RESPONSE_SIZE, delivered in 256-byte reads per edge-triggered event) is in the model as an immediate failure but left out of the generated cases: when its verdict arrives depends on socket buffering, not on the checker; TLS / h2c probes are not exercised (plain HTTP/1.1 GET only)",
     "LoadMetric::ConnectionTime (PeakEWMA, wall-clock data) is not modelled: with that metric the pick of LeastLoaded / PowerOfTwo is checked for membership in the candidate list only; the 65537-slot production Maglev table is modelled over a binary trie proved equal slot for slot to the list-based rebuild, and compared slot by slot with the real table in dedicated cases (the same rebuild code is compared slot by slot at table sizes 2..31)",
 ]
-TRUSTED = ["translator props/c12.py:translate compares DEFAULT_TABLE_SIZE, DEFAULT_WEIGHT, the max_tries of Backend::new, the bodies of can_open / is_available / the fail-open filter and the statements of ExponentialBackoffPolicy::{fail,can_try} with lib/src/{backends,load_balancing,retry}.rs, and for the health checker the order deadline-before-readiness-gate in progress_checks, the in-flight filter and the jittered-interval test of initiate_checks, and the address look-up / thresholds of record_check_result with lib/src/health_check.rs"]
+TRUSTED = ["translator props/c12.py:translate reads facts, not spelling (comments and assertions stripped, functions found by name, named constants resolved, either operand order / operator or method form, locals free, one-level private helpers followed; a construct it cannot recognise is reported as `unreadable:` and the tie for that run is the correspondence check on the larger search batch, see TRANSLATE_FALLBACK); it compares DEFAULT_TABLE_SIZE, DEFAULT_WEIGHT, the max_tries of Backend::new, the bodies of can_open / is_available / the fail-open filter and the statements of ExponentialBackoffPolicy::{fail,can_try} with lib/src/{backends,load_balancing,retry}.rs, and for the health checker the order deadline-before-readiness-gate in progress_checks, the in-flight filter and the jittered-interval test of initiate_checks, and the address look-up / thresholds of record_check_result with lib/src/health_check.rs"]
 
 
-def _norm(s):
-    return re.sub(r"\s+", " ", re.sub(r"//[^\n]*", "", s)).strip()
+# ---------------------------------------------------------------------------
+# The translator reads FACTS (a number, an operator, an order), not spelling: comments are stripped, functions
+# are found by name with brace matching, locals / private names are `\w+`, `a < b` = `b > a` = `a.lt(&b)`, a named
+# constant is looked up (`const NAME: T = value;`), a sub-expression may sit in a one-level private helper.
+# A construct that is recognised and carries another value than the model's is a hard failure; a construct
+# that is not recognised is reported as `unreadable: ...` (see TRANSLATE_FALLBACK).
+
+import rustmini
 
 
-def _fn_body(src, sig):
-    i = src.index(sig)
-    j = src.index("{", i)
-    depth, k = 0, j
-    while True:
-        if src[k] == "{":
-            depth += 1
-        elif src[k] == "}":
-            depth -= 1
-            if depth == 0:
-                return src[j:k + 1]
-        k += 1
+def _src(rel):
+    return rustmini.strip(open(os.path.join(vlib.REPO, rel)).read())
+
+
+def _ws(s):
+    return re.sub(r"\s+", " ", s).strip()
+
+
+def _no_asserts(text):
+    """drop assert!/debug_assert*!( ... ) invocations (their comparisons are not the code's decisions)"""
+    out, i = [], 0
+    for m in re.finditer(r"\b(?:debug_)?assert(?:_eq|_ne)?!\s*\(", text):
+        if m.start() < i:
+            continue
+        out.append(text[i:m.start()])
+        try:
+            i = rustmini.match_brace(text, m.end() - 1, "(", ")") + 1
+        except rustmini.Unrecognised:
+            i = m.end()
+    out.append(text[i:])
+    return "".join(out)
+
+
+def _body(src, name, after=0):
+    """body of `fn name` (comments already stripped, assertions dropped), or None"""
+    try:
+        return _no_asserts(rustmini.fn_body(src, name, after)[0])
+    except rustmini.Unrecognised:
+        return None
+
+
+def _consts(src):
+    out = {}
+    for m in re.finditer(r"\bconst\s+(\w+)\s*:\s*[\w:<>]+\s*=\s*([^;]+);", src):
+        out[m.group(1)] = _ws(m.group(2))
+    return out
+
+
+def _num(tok, consts):
+    """integer value of a literal (1, 1u64, 65_537) or of a named constant (Self::X, X), else None"""
+    tok = tok.strip()
+    tok = re.sub(r"^(Self|self|\w+)::", "", tok) if not re.match(r"^\d", tok) else tok
+    seen = 0
+    while tok in consts and seen < 4:
+        tok = consts[tok]
+        seen += 1
+    m = re.fullmatch(r"(\d[\d_]*)(?:_?(?:u|i)(?:8|16|32|64|128|size))?", tok)
+    return int(m.group(1).replace("_", "")) if m else None
+
+
+_FLIP = {"<": ">", "<=": ">=", ">": "<", ">=": "<="}
+_METH = {"lt": "<", "le": "<=", "gt": ">", "ge": ">="}
+
+
+def _cmp(text, A, B):
+    """the comparison between the expressions matched by regexes A and B in `text`, as the operator of `A op B`
+    (whichever way round and in operator or method form it is written), with its position; or (None, -1)"""
+    op = r"(<=|>=|<|>)"
+    for rx, f in [
+        (r"(?:%s)\s*%s\s*(?:%s)" % (A, op, B), lambda o: o),
+        (r"(?:%s)\s*%s\s*(?:%s)" % (B, op, A), lambda o: _FLIP[o]),
+        (r"(?:%s)\s*\.\s*(lt|le|gt|ge)\(\s*&?\s*(?:%s)\s*\)" % (A, B), lambda o: _METH[o]),
+        (r"(?:%s)\s*\.\s*(lt|le|gt|ge)\(\s*&?\s*(?:%s)\s*\)" % (B, A), lambda o: _FLIP[_METH[o]]),
+    ]:
+        m = re.search(rx, text)
+        if m:
+            return f(m.group(1)), m.start()
+    return None, -1
+
+
+def _locals_bound_to(body, rhs_rx):
+    """names of the locals bound by `let x = <rhs>;` with rhs matching rhs_rx"""
+    return [m.group(1) for m in re.finditer(r"\blet\s+(?:mut\s+)?(\w+)(?:\s*:\s*[^=;]+)?\s*=\s*(?:%s)\s*;" % rhs_rx, body)]
+
+
+def _alt(base_rx, names):
+    return "|".join([base_rx] + [r"\b%s\b" % re.escape(n) for n in names])
+
+
+NORMAL = r"(?:\w+\.status\s*==\s*(?:\w+::)*BackendStatus::Normal|(?:\w+::)*BackendStatus::Normal\s*==\s*\w+\.status|matches!\(\s*\w+\.status\s*,\s*(?:\w+::)*BackendStatus::Normal\s*\))"
+OKAY = r"(?:\w+::)*RetryAction::OKAY"
+
+
+def _read_retry(fails):
+    rt = _src("lib/src/retry.rs")
+    consts = _consts(rt)
+    m = re.search(r"impl\s+RetryPolicy\s+for\s+ExponentialBackoffPolicy", rt)
+    if not m:
+        fails.append("unreadable: retry.rs: `impl RetryPolicy for ExponentialBackoffPolicy` not found (model: retry_fail / can_try)")
+        return
+    fl = _body(rt, "fail", m.end())
+    if fl is None:
+        fails.append("unreadable: retry.rs: ExponentialBackoffPolicy::fail not found (model: retry_fail)")
+    else:
+        el = _alt(r"self\.last_try\.elapsed\(\)", _locals_bound_to(fl, r"self\.last_try\.elapsed\(\)"))
+        # 1. inside a window fail() changes nothing: `if elapsed < wait { return; }`
+        op, pos = _cmp(fl, el, r"self\.wait")
+        if op is None or not re.match(r"[^{;]*\{\s*return\s*;?\s*\}", fl[pos:]):
+            fails.append("unreadable: retry.rs: fail(): the early return inside a window (`if last_try.elapsed() < wait { return; }`) not found")
+        elif op != "<":
+            fails.append("retry.rs: fail() returns early when last_try.elapsed() %s wait (model: <: a failure inside a window changes nothing, one at its end opens the next)" % op)
+        # 2. the window is anchored at the failure
+        if not re.search(r"self\.last_try\s*=\s*(?:\w+::)*Instant::now\(\)", fl):
+            fails.append("unreadable: retry.rs: fail(): `self.last_try = Instant::now()` not found (model: the window starts at the failure)")
+        # 3. tries saturate at max_tries
+        m3 = (re.search(r"self\.current_tries\s*=\s*(?:\w+::)*min\(\s*self\.current_tries\s*\+\s*(\w+)\s*,\s*self\.max_tries\s*\)", fl)
+              or re.search(r"self\.current_tries\s*=\s*(?:\w+::)*min\(\s*self\.max_tries\s*,\s*self\.current_tries\s*\+\s*(\w+)\s*\)", fl)
+              or re.search(r"self\.current_tries\s*=\s*\(\s*self\.current_tries\s*\+\s*(\w+)\s*\)\s*\.min\(\s*self\.max_tries\s*\)", fl)
+              or re.search(r"self\.current_tries\s*=\s*self\.max_tries\s*\.min\(\s*self\.current_tries\s*\+\s*(\w+)\s*\)", fl))
+        if not m3:
+            fails.append("unreadable: retry.rs: fail(): `current_tries = min(current_tries + 1, max_tries)` not found")
+        elif _num(m3.group(1), consts) != 1:
+            fails.append("retry.rs: fail() no longer counts one try per failure (model: current_tries + 1, saturating at max_tries)")
+        # 4. the window length is drawn from [1, 2^tries)
+        m4 = re.search(r"random_range\(\s*([\w:]+)\s*(\.\.=?)\s*(\w+)\s*\)", fl)
+        if not m4:
+            fails.append("unreadable: retry.rs: fail(): `random_range(1..max_secs)` not found (model: window in [1, 2^tries))")
+        else:
+            lo, rng_op, hi = m4.group(1), m4.group(2), m4.group(3)
+            hb = re.search(r"\blet\s+(?:mut\s+)?%s(?:\s*:\s*[^=;]+)?\s*=\s*([^;]+);" % re.escape(hi), fl)
+            if _num(lo, consts) is None or not hb:
+                fails.append("unreadable: retry.rs: fail(): the bounds of random_range(%s%s%s) could not be read (model: [1, 2^tries))" % (lo, rng_op, hi))
+            elif _num(lo, consts) != 1 or rng_op != "..":
+                fails.append("retry.rs: fail() draws the window from %s%s%s (model: 1..2^tries, upper bound excluded)" % (lo, rng_op, hi))
+            elif not re.search(r"\b1(?:u64|_u64)?\s*\.\s*checked_shl\(\s*self\.current_tries\b|\b1(?:u64|_u64)?\s*<<\s*self\.current_tries\b|\b2(?:u64|_u64)?\s*\.\s*(?:checked_|saturating_)?pow\(\s*self\.current_tries\b", hb.group(1)):
+                fails.append("unreadable: retry.rs: fail(): the upper bound `%s` is not recognised as 2^current_tries: %s" % (hi, _ws(hb.group(1))[:120]))
+    ct = _body(rt, "can_try", m.end())
+    if ct is None:
+        fails.append("unreadable: retry.rs: ExponentialBackoffPolicy::can_try not found (model: wait <= now - last_try)")
+    else:
+        el = _alt(r"self\.last_try\.elapsed\(\)", _locals_bound_to(ct, r"self\.last_try\.elapsed\(\)"))
+        op, pos = _cmp(ct, el, r"self\.wait")
+        br = re.match(r"[^{;]*\{\s*((?:\w+::)*RetryAction::\w+)\s*\}\s*else\s*\{\s*((?:\w+::)*RetryAction::\w+)\s*\}", ct[pos:]) if op else None
+        if not br:
+            fails.append("unreadable: retry.rs: can_try(): `if last_try.elapsed() >= wait { OKAY } else { WAIT }` not found")
+        else:
+            first, second = br.group(1).split("::")[-1], br.group(2).split("::")[-1]
+            if (op, first, second) not in ((">=", "OKAY", "WAIT"), ("<", "WAIT", "OKAY")):
+                fails.append("retry.rs: can_try() answers %s when last_try.elapsed() %s wait, else %s (model: OKAY exactly when elapsed >= wait)" % (first, op, second))
+
+
+def _read_backends(fails):
+    be = _src("lib/src/backends.rs")
+    consts = _consts(be)
+    main = be.split("#[cfg(test)]")[0]
+    tries = [_num(x, consts) for x in re.findall(r"ExponentialBackoffPolicy::new\(\s*([\w:]+)\s*\)", main)]
+    if not tries or None in tries:
+        fails.append("unreadable: backends.rs: the max_tries Backend::new gives its ExponentialBackoffPolicy could not be read (model: 6)")
+    elif set(tries) != {6}:
+        fails.append("backends.rs: Backend::new uses ExponentialBackoffPolicy::new(%s) (model: 6)" % sorted(set(tries)))
+    # can_open = healthy && Normal && can_try() == OKAY, in whatever control-flow form
+    co = _body(be, "can_open")
+    if co is None:
+        fails.append("unreadable: backends.rs: Backend::can_open not found (model: healthy && Normal && can_try()==OKAY)")
+    else:
+        atoms = [r"self\.health\.is_healthy\(\)", NORMAL.replace(r"\w+\.status", r"self\.status"), r"self\.retry_policy\.can_try\(\)", OKAY]
+        odd = [r"\|\|", r"!=", r"BackendStatus::Clos", r"RetryAction::WAIT", r"\btrue\b", r"is_down"]
+        if not all(re.search(a, co) for a in atoms) or any(re.search(x, co) for x in odd) \
+                or not re.search(r"!\s*self\.health\.is_healthy\(\)\s*\{\s*return\s+false\s*;?\s*\}|self\.health\.is_healthy\(\)\s*&&", co):
+            fails.append("unreadable: backends.rs: Backend::can_open is not recognised as `healthy && Normal && can_try()==OKAY`: " + _ws(co)[:200])
+    ia = _body(be, "is_available")
+    if ia is None:
+        fails.append("unreadable: backends.rs: Backend::is_available not found (model: healthy && Normal && !is_down())")
+    else:
+        atoms = [r"self\.health\.is_healthy\(\)", NORMAL.replace(r"\w+\.status", r"self\.status"), r"!\s*self\.retry_policy\.is_down\(\)"]
+        if not all(re.search(a, ia) for a in atoms) or re.search(r"\|\||!=|BackendStatus::Clos|!\s*self\.health", ia):
+            fails.append("unreadable: backends.rs: Backend::is_available is not recognised as `healthy && Normal && !is_down()`: " + _ws(ia)[:200])
+    # the fail-open filter of next_available_backend: Normal && can_try() == OKAY (health ignored)
+    ok1 = r"matches!\(\s*(\w+)\.retry_policy\.can_try\(\)\s*,\s*Some\(\s*%s\s*\)\s*\)" % OKAY
+    ok2 = r"(\w+)\.retry_policy\.can_try\(\)\s*==\s*Some\(\s*%s\s*\)" % OKAY
+    found = False
+    for okrx in (ok1, ok2):
+        for mm in re.finditer(okrx, main):
+            v = mm.group(1)
+            around = main[max(0, mm.start() - 160):mm.end() + 160]
+            if re.search(NORMAL.replace(r"\w+\.status", re.escape(v) + r"\.status"), around) and "is_healthy" not in around:
+                found = True
+    if not found:
+        fails.append("unreadable: backends.rs: the fail-open filter `status == Normal && can_try() == Some(OKAY)` not found (model: fail_open_ok)")
+
+
+def _read_lb(fails):
+    lb = _src("lib/src/load_balancing.rs")
+    consts = _consts(lb)
+    for name, want, why in [("DEFAULT_TABLE_SIZE", 65537, "prime_65537, the production Maglev table"), ("DEFAULT_WEIGHT", 100, "weight_of")]:
+        if name not in consts:
+            fails.append("unreadable: load_balancing.rs: const %s not found (model: %d, %s)" % (name, want, why))
+        elif _num(name, consts) != want:
+            fails.append("load_balancing.rs: %s is %s (model: %d, %s)" % (name, consts[name], want, why))
+
+
+def _helper_with(src, body, upto, rx):
+    """position in `body[:upto]` of a call to a function of the same file whose body matches rx (one level), or -1"""
+    for m in re.finditer(r"\b(\w+)\s*\(", body[:upto] if upto >= 0 else body):
+        hb = _body(src, m.group(1))
+        if hb is not None and m.group(1) not in ("progress_checks",) and re.search(rx, hb):
+            return m.start()
+    return -1
+
+
+def _read_health(fails):
+    hs = _src("lib/src/health_check.rs")
+    # 1. deadlines are acted on whether or not the socket is ready: the ORDER deadline test -> readiness gate
+    pc = _body(hs, "progress_checks")
+    if pc is None:
+        fails.append("unreadable: health_check.rs: progress_checks not found (model: progress_timeouts needs no readiness)")
+    else:
+        started = r"\w+\.duration_since\(\s*\w+\.started_at\s*\)|\w+\.started_at\.elapsed\(\)|\w+\.saturating_duration_since\(\s*\w+\.started_at\s*\)"
+        A = _alt(started, _locals_bound_to(pc, started))
+        op, dpos = _cmp(pc, A, r"\w+\.timeout")
+        if op is None:
+            # one level of private helper: `if check.is_overdue(now)` / `if Self::timed_out(check, now)`
+            for m in re.finditer(r"\b(\w+)\s*\(", pc):
+                hb = _body(hs, m.group(1)) if m.group(1) != "progress_checks" else None
+                if hb is not None:
+                    hop, _ = _cmp(hb, _alt(started, _locals_bound_to(hb, started)), r"\w+\.timeout")
+                    if hop:
+                        op, dpos = hop, m.start()
+                        break
+        g = re.search(r"\w+\s*\.\s*contains\(\s*&\s*\w+\.token\s*\)", pc)
+        gpos = g.start() if g else -1
+        if g is None:
+            for m in re.finditer(r"\b(\w+)\s*\(", pc):
+                hb = _body(hs, m.group(1)) if m.group(1) != "progress_checks" else None
+                if hb is not None and re.search(r"\.\s*contains\(\s*&\s*\w+(?:\.token)?\s*\)", hb) and "ready" in hb:
+                    gpos = m.start()
+                    break
+        if op is None or gpos < 0:
+            fails.append("unreadable: health_check.rs: progress_checks: %s not found (model: a probe past its deadline fails at the next poll, ready or not)"
+                         % ("the deadline test `now - started_at > timeout`" if op is None else "the readiness gate `ready.contains(&check.token)`"))
+        elif dpos > gpos:
+            fails.append("health_check.rs: progress_checks tests the deadline after the readiness gate: a silent backend's probe never ends (model: progress_timeouts needs no readiness)")
+        elif op != ">":
+            fails.append("health_check.rs: progress_checks fails a probe when now - started_at %s timeout (model: >)" % op)
+    # 2. a round probes the Normal backends without a probe in flight for (cluster, backend id)
+    ic = _body(hs, "initiate_checks")
+    if ic is None:
+        fails.append("unreadable: health_check.rs: initiate_checks not found (model: initiate_cluster)")
+    else:
+        flt = re.search(r"!\s*self\s*\.\s*in_flight\s*\.\s*iter\(\)\s*\.\s*any\(\s*\|\s*(\w+)\s*\|(.{0,200}?)\)\s*\}?\s*\)", ic, re.S)
+        inner = flt.group(2) if flt else ""
+        if not (flt and re.search(r"%s\.cluster_id\s*==|==\s*%s\.cluster_id" % (flt.group(1), flt.group(1)), inner)
+                and re.search(r"%s\.backend_id\s*==|==\s*%s\.backend_id" % (flt.group(1), flt.group(1)), inner)
+                and "&&" in inner and "||" not in inner and re.search(NORMAL, ic)):
+            fails.append("unreadable: health_check.rs: initiate_checks: the filter `status == Normal && !in_flight.any(same cluster && same backend id)` not found (model: initiate_cluster)")
+        last = r"\w+\.duration_since\(\s*\*?\s*\w+\s*\)|\w+\.elapsed\(\)"
+        op, pos = _cmp(ic, last, r"\w*interval\w*")
+        jit = re.search(r"\blet\s+(\w+)\s*=\s*\w+\s*\+\s*(?:\w+::)*Duration::from_millis\(\s*\w+\s*\)", ic)
+        if op is None or not jit:
+            fails.append("unreadable: health_check.rs: initiate_checks: `now - last >= interval + jitter` not found (model: a round starts after interval + 1 whole model seconds)")
+        elif op != ">=":
+            fails.append("health_check.rs: initiate_checks starts a round when now - last %s interval + jitter (model: >=)" % op)
+    # 3. a verdict reaches the backend found by address in the cluster's list, with the configured thresholds
+    rc = _body(hs, "record_check_result")
+    if rc is None:
+        fails.append("unreadable: health_check.rs: record_check_result not found (model: record_result)")
+    else:
+        if not re.search(r"\.\s*find_backend\(\s*&?\s*\w+\s*\)", rc):
+            fails.append("unreadable: health_check.rs: record_check_result: the look-up `backend_list.find_backend(&address)` not found (model: record_result by address)")
+        su = re.search(r"\.record_success\(\s*(?:\w+\.)?(\w+)\s*\)", rc)
+        fa = re.search(r"\.record_failure\(\s*(?:\w+\.)?(\w+)\s*\)", rc)
+        names = (su.group(1) if su else None, fa.group(1) if fa else None)
+        if names == ("unhealthy_threshold", "healthy_threshold") or names[0] == "unhealthy_threshold" or names[1] == "healthy_threshold":
+            fails.append("health_check.rs: record_check_result applies %s to a success and %s to a failure (model: healthy_threshold / unhealthy_threshold)" % names)
+        elif names != ("healthy_threshold", "unhealthy_threshold"):
+            fails.append("unreadable: health_check.rs: record_check_result: record_success(healthy_threshold) / record_failure(unhealthy_threshold) not found")
+    # 4. removing a cluster drops its probes
+    rm = _body(hs, "remove_cluster")
+    mm = rm and re.search(r"\.\s*in_flight\s*\.\s*retain\(\s*\|\s*(\w+)\s*\|\s*(?:\1\.cluster_id(?:\.as_str\(\))?\s*(==|!=)\s*\*?\w+|\*?\w+\s*(==|!=)\s*\1\.cluster_id(?:\.as_str\(\))?)\s*\)", rm)
+    if not mm:
+        fails.append("unreadable: health_check.rs: remove_cluster: `in_flight.retain(|c| c.cluster_id != cluster_id)` not found (model: hc_remove)")
+    elif (mm.group(2) or mm.group(3)) != "!=":
+        fails.append("health_check.rs: remove_cluster keeps exactly the removed cluster's probes (model: hc_remove drops them)")
 
 
 def translate():
     fails = []
-    be = open(os.path.join(vlib.REPO, "lib/src/backends.rs")).read()
-    lb = open(os.path.join(vlib.REPO, "lib/src/load_balancing.rs")).read()
-    if not re.search(r"DEFAULT_TABLE_SIZE:\s*usize\s*=\s*65537\s*;", lb):
-        fails.append("load_balancing.rs: Maglev::DEFAULT_TABLE_SIZE is no longer 65537 (model: prime_65537)")
-    if not re.search(r"const DEFAULT_WEIGHT:\s*i32\s*=\s*100\s*;", lb):
-        fails.append("load_balancing.rs: DEFAULT_WEIGHT is no longer 100")
-    if "retry::ExponentialBackoffPolicy::new(6)" not in be:
-        fails.append("backends.rs: Backend::new no longer uses ExponentialBackoffPolicy::new(6)")
-    try:
-        co = _norm(_fn_body(be, "pub fn can_open(&self) -> bool"))
-        want = _norm("""{ if !self.health.is_healthy() { return false; }
-            if let Some(action) = self.retry_policy.can_try() {
-                self.status == BackendStatus::Normal && action == retry::RetryAction::OKAY
-            } else { false } }""")
-        if co != want:
-            fails.append("backends.rs: Backend::can_open is no longer `healthy && Normal && can_try()==OKAY` as modelled: " + co[:200])
-        ia = _norm(_fn_body(be, "pub fn is_available(&self) -> bool"))
-        want = _norm("{ self.health.is_healthy() && self.status == BackendStatus::Normal && !self.retry_policy.is_down() }")
-        if ia != want:
-            fails.append("backends.rs: Backend::is_available changed: " + ia[:200])
-    except ValueError as ex:
-        fails.append("backends.rs: can_open / is_available not found (%s)" % ex)
-    if not re.search(r"owned\.status == BackendStatus::Normal\s*&&\s*matches!\(owned\.retry_policy\.can_try\(\), Some\(retry::RetryAction::OKAY\)\)", be):
-        fails.append("backends.rs: the fail-open filter is no longer `Normal && can_try()==OKAY`")
-    rt = open(os.path.join(vlib.REPO, "lib/src/retry.rs")).read()
-    try:
-        imp = rt[rt.index("impl RetryPolicy for ExponentialBackoffPolicy"):]
-        fl = _norm(_fn_body(imp, "fn fail(&mut self)"))
-        for frag, what in [
-            ("if self.last_try.elapsed().lt(&self.wait) { return; }", "fail() no longer returns early inside a window"),
-            ("self.last_try = time::Instant::now();", "fail() no longer anchors the window at the failure (last_try = now)"),
-            ("self.current_tries = cmp::min(self.current_tries + 1, self.max_tries);", "fail() no longer saturates current_tries at max_tries"),
-            ("rng.random_range(1..max_secs)", "fail() no longer draws the window from [1, 2^tries)"),
-        ]:
-            if _norm(frag) not in fl:
-                fails.append("retry.rs: " + what)
-        ct = _norm(_fn_body(imp, "fn can_try(&self)"))
-        if "self.last_try.elapsed().ge(&self.wait)" not in ct:
-            fails.append("retry.rs: can_try() is no longer `last_try.elapsed() >= wait`")
-    except ValueError as ex:
-        fails.append("retry.rs: fail / can_try not found (%s)" % ex)
-    # the health checker (model C12/HModel.v)
-    hcs = open(os.path.join(vlib.REPO, "lib/src/health_check.rs")).read()
-    try:
-        pc = _norm(_fn_body(hcs, "fn progress_checks(&mut self, backends: &Rc<RefCell<BackendMap>>, registry: &Registry)"))
-        dl = _norm("if now.duration_since(check.started_at) > check.timeout {")
-        gate = _norm("if !ready.contains(&check.token) { continue; }")
-        if dl not in pc:
-            fails.append("health_check.rs: progress_checks no longer fails a probe when `now - started_at > timeout` (model: timed_out)")
-        elif gate in pc and pc.index(gate) < pc.index(dl):
-            fails.append("health_check.rs: progress_checks tests the deadline after the readiness gate: a silent backend's probe never ends (model: progress_timeouts needs no readiness)")
-    except ValueError as ex:
-        fails.append("health_check.rs: progress_checks not found (%s)" % ex)
-    n = _norm(hcs)
-    for frag, what in [
-        ("b.status == crate::backends::BackendStatus::Normal && !self.in_flight.iter().any(|f| { f.cluster_id == *cluster_id && f.backend_id == b.backend_id })",
-         "initiate_checks no longer probes exactly the Normal backends without a probe in flight for (cluster, backend id) (model: initiate_cluster)"),
-        ("Some(last) => now.duration_since(*last) >= jittered_interval,",
-         "initiate_checks no longer starts a round when `now - last >= interval + jitter` (model: h_interval + 1 <= now - last)"),
-        ("let Some(backend_ref) = backend_list.find_backend(&address) else {",
-         "record_check_result no longer finds the backend through the cluster's list by address (model: record_result)"),
-        ("backend.health.record_success(config.healthy_threshold)", "record_check_result no longer applies healthy_threshold to a success"),
-        ("backend.health.record_failure(config.unhealthy_threshold)", "record_check_result no longer applies unhealthy_threshold to a failure"),
-        ("self.in_flight .retain(|check| check.cluster_id != cluster_id);",
-         "remove_cluster no longer drops the cluster's probes in flight (model: hc_remove)"),
-    ]:
-        if _norm(frag) not in n:
-            fails.append("health_check.rs: " + what)
+    for reader in (_read_lb, _read_backends, _read_retry, _read_health):
+        try:
+            reader(fails)
+        except (OSError, rustmini.Unrecognised, re.error, IndexError, AttributeError) as ex:
+            fails.append("unreadable: %s: %s" % (reader.__name__, ex))
     return fails
+
+
+TRANSLATE_FALLBACK = ("every fact the translator reads is observed by the correspondence run on every batch: the policy constants "
+                      "(65537-slot production table compared slot by slot, default weight in the HRW scores / Maglev tables, max_tries "
+                      "in every dump), can_open / is_available / the fail-open filter (the exact candidate list of every selection over "
+                      "healthy x status x back-off states, observed through a recording policy), fail() / can_try() (the real policy "
+                      "with its clock aged to the second: window anchor, early return, saturation, window length checked against "
+                      "[1, 2^tries), retry state in every dump), and the health checker's order deadline-before-readiness, in-flight "
+                      "filter, interval, look-up by address, thresholds and remove_cluster (the real HealthChecker over silent / "
+                      "answering scripted backends: probes in flight after every pump, counters in every dump, oracles "
+                      "probe-not-terminated / two-probes-in-flight)")
 
 
 # ---------------------------------------------------------------------------
